@@ -79,22 +79,22 @@ def check_one(f):
     try:
         if str(obj) != s:
             out.append(("str-not-repeatable", "str(filter) gives a different text the second time"))
-        if sl.LDAPFilter.from_string(s) != back:
+        if av.differs(sl.LDAPFilter.from_string(s), back):
             out.append(("parse-not-repeatable", f"parsing {s[:80]!r} twice gives different filters"))
     except Exception as e:
         out.append((f"second-use-exc:{norm_msg(e, 30)}", f"second str()/from_string raised {type(e).__name__}: {e}"))
-    if back == obj and isinstance(obj, (sl.FilterAnd, sl.FilterOr)):
+    if not av.differs(back, obj) and isinstance(obj, (sl.FilterAnd, sl.FilterOr)):
         try:
             obj.filters.append(sl.FilterPresent("added-after-str"))
             s3 = str(obj)
-            if sl.LDAPFilter.from_string(s3) != obj:
+            if av.differs(sl.LDAPFilter.from_string(s3), obj):
                 out.append(("stale-text-after-edit", f"a tree edited after its text form had been taken renders as {s3[:80]!r}, which no longer denotes it"))
                 return out
             # nested and/or nodes rendered earlier as part of their parent
             inner = next((x for x in obj.filters if isinstance(x, (sl.FilterAnd, sl.FilterOr))), None)
             if inner is not None:
                 inner.filters.append(sl.FilterPresent("added-inside"))
-                if sl.LDAPFilter.from_string(str(obj)) != obj:
+                if av.differs(sl.LDAPFilter.from_string(str(obj)), obj):
                     out.append(("stale-text-after-edit", "a nested and/or node edited after its parent had been rendered: the parent's text form is stale"))
                     return out
         except Exception as e:
@@ -102,20 +102,20 @@ def check_one(f):
             return out
         # obj was edited on purpose: the remaining comparisons use the parsed copy only
         obj = av.b_filter(f)
-    if back == obj and isinstance(back, (sl.FilterAnd, sl.FilterOr, sl.FilterSubstrings)):
+    if not av.differs(back, obj) and isinstance(back, (sl.FilterAnd, sl.FilterOr, sl.FilterSubstrings)):
         try:
             (back.any if isinstance(back, sl.FilterSubstrings) else back.filters).append(b"edited" if isinstance(back, sl.FilterSubstrings) else sl.FilterPresent("edited-by-caller"))
             s_after = str(back)  # the edited tree rendered again
-            if sl.LDAPFilter.from_string(s_after) != back:
+            if av.differs(sl.LDAPFilter.from_string(s_after), back):
                 out.append(("stale-text-after-edit", f"after an edit of the tree its text form {s_after[:80]!r} no longer denotes it"))
             again = sl.LDAPFilter.from_string(s)
-            if again != obj:
+            if av.differs(again, obj):
                 out.append(("parse-result-shared-with-earlier-parse", f"after the caller edited a previously parsed filter, parsing {s[:80]!r} again gives {str(av.a_filter(again))[:120]}"))
             return out
         except Exception as e:
             out.append((f"second-use-exc:{norm_msg(e, 30)}", f"{type(e).__name__}: {e}"))
             return out
-    if back != obj:
+    if av.differs(back, obj):
         got = av.a_filter(back)
         if got == collapse_dn(f) and got != f:
             out.append(("rule-named-dn-with-attribute", f"extensible match with attribute and matching rule spelled 'dn' comes back as dn_attributes=True without rule: {s[:80]!r}"))
